@@ -741,7 +741,13 @@ def explore(fn, max_paths=200000, timeout_s=3600, qtimeout_ms=20000, expected=()
             import traceback
             tb = traceback.extract_tb(e.__traceback__)
             where = "%s:%d" % (tb[-1].filename.split("/")[-1], tb[-1].lineno) if tb else "?"
-            st["violations"].append(dict(msg="EXC %s: %s @%s" % (type(e).__name__, e, where),
+            if tb and _is_harness_file(tb[-1].filename) and not isinstance(e, AssertionError):
+                # raised by harness / engine code itself, not by the code under test: never a verdict
+                outcome = "inconclusive"
+                st["inconclusive"].append("harness error %s: %s @%s" % (type(e).__name__, e, where))
+                tb = None
+            if tb is not None:
+              st["violations"].append(dict(msg="EXC %s: %s @%s" % (type(e).__name__, e, where),
                                          assignment=_safe_assignment(sp), kind="exception",
                                          prefix=[bool(v) for v, _ in sp.trace]))
         finally:
@@ -784,6 +790,13 @@ def explore(fn, max_paths=200000, timeout_s=3600, qtimeout_ms=20000, expected=()
             break
     st["wall_s"] = time.time() - t0
     return st
+
+
+_HERE = __file__.rsplit("/", 2)[0]
+
+
+def _is_harness_file(fn):
+    return fn.startswith(_HERE + "/")
 
 
 def _safe_assignment(sp):
